@@ -159,6 +159,18 @@ func runC10(c *Ctx) bool {
 			cs.Kind = "malformed"
 			cs.Tags = []string{"overlong-line"}
 		}
+		if j%16 == 9 && cs.Kind == "wellformed" {
+			// carriage returns in front of the line terminator ("name\r\n" in an LF document,
+			// "name\r\r\n" in a CRLF one): whatever the simple mode makes of them, the massive mode does
+			ls := strings.SplitAfter(doc, "\n")
+			for k := range ls {
+				if strings.HasSuffix(ls[k], "\n") && len(strings.TrimSpace(ls[k])) > 0 && r.Chance(1, 2) {
+					ls[k] = ls[k][:len(ls[k])-1] + "\r\n"
+				}
+			}
+			doc = strings.Join(ls, "")
+			cs.AddTag("carriage-return-before-terminator")
+		}
 		cs.Depths, cs.Names = gen.Depths(f)
 		cs.SetDoc(doc)
 		cs.Opt = map[string]string{"op": c10Ops[j%len(c10Ops)]}
